@@ -9,7 +9,6 @@ import (
 	"sort"
 	"time"
 
-	"github.com/sanonone/kektordb/internal/verifkit"
 	"github.com/sanonone/kektordb/pkg/core"
 	"github.com/sanonone/kektordb/pkg/core/hnsw"
 	"github.com/sanonone/kektordb/pkg/engine"
@@ -155,9 +154,6 @@ func DiffDumps(a, b *Dump) string {
 			}
 			for i := range va.Vec {
 				if ia.Prec == "int8" {
-					if verifkit.Known("int8-restart") {
-						continue // known finding: int8 values are re-quantised with a re-trained range at restart
-					}
 					tol := float64(ia.AbsMax+ib.AbsMax)/254*1.02 + 1e-6
 					if math.Abs(float64(va.Vec[i])-float64(vb.Vec[i])) > tol {
 						return fmt.Sprintf("index %s (int8) id %s component %d moved by more than a quantisation step: before=%v (range %g) after=%v (range %g)", name, id, i, va.Vec, ia.AbsMax, vb.Vec, ib.AbsMax)
